@@ -446,4 +446,71 @@ Section Items.
       + eapply pbind_rel; [exact IH|]. intros [b r1] [b' r1'] [Hb Hr1]. cbn [fst snd] in Hb, Hr1. constructor.
         split; cbn [fst snd]; [exact Hb|constructor; assumption].
   Qed.
+  (* ---- 11. resolve_item_baselines *)
+  Lemma rel_take_row st l l' : Forall2 (gitem_rel k) l l' ->
+    pair_rel (Forall2 (gitem_rel k)) (Forall2 (gitem_rel k)) (take_row st l) (take_row st l').
+  Proof.
+    induction 1 as [|g g' r r' Hg Hr IH]; cbn [take_row].
+    - split; constructor.
+    - gi_open Hg. rewrite Egl. destruct (Z.eqb _ st).
+      + destruct (take_row st r) as [a b], (take_row st r') as [a' b']. destruct IH as [Ha Hb]. cbn [fst snd] in *.
+        split; cbn [fst snd]; [constructor; assumption|exact Hb].
+      + split; cbn [fst snd]; constructor; assumption.
+  Qed.
+
+  Lemma rel_m_baseline_row inner inner' row row' :
+    sz_rel O inner inner' -> Forall2 (gitem_rel k) row row' -> ProgRel k (Forall2 (gitem_rel k)) (m_baseline_row inner row) (m_baseline_row inner' row').
+  Proof.
+    intros Hin Hrow. unfold m_baseline_row.
+    rewrite (rel_length (gitem_rel k) _ _ (rel_filter (gitem_rel k) (fun g => ai_is_baseline (g_align g)) (fun g => ai_is_baseline (g_align g)) row row'
+               (fun g g' Hg => match Hg with conj _ (conj _ (conj _ (conj Ega _))) => f_equal ai_is_baseline Ega end) Hrow)).
+    destruct (Nat.leb _ 1); [constructor; exact Hrow|].
+    eapply pbind_rel with (RA := pair_rel (fun _ _ : unit => True) (Forall2 (gitem_rel k))).
+    - apply pmap_acc_rel with (RS := fun _ _ : unit => True) (RX := gitem_rel k); [|exact Hrow|exact I].
+      intros u u' g g' _ Hg. gi_open Hg. ws_open Hgst. rewrite Egn. constructor; [exact Hin|]. intros h h' b b' Hh Hb.
+      constructor. split; cbn [fst snd]; [exact I|]. apply rel_set_baseline; [exact Hg|]. cbn [op_rel].
+      apply sc_add; [apply rel_opt_unwrap_or; assumption|]. apply (rel_resolve_or_zero_lpa k Hk); [apply Wmar|apply Hin].
+    - intros [u row1] [u' row1'] [_ Hrow1]. cbn [fst snd] in Hrow1. constructor.
+      assert (Hmx : L (max_by_last (map (fun g => opt_unwrap_or (g_baseline g) zero) row1))
+                      (max_by_last (map (fun g => opt_unwrap_or (g_baseline g) zero) row1'))).
+      { first [apply (rel_max_by_last k Hk)|apply (rel_max_by_last k)]. eapply rel_map; [|exact Hrow1].
+        intros g g' Hg. gi_open Hg. apply rel_opt_unwrap_or; [exact Hgb|apply sc_zero]. }
+      revert Hmx. generalize (max_by_last (map (fun g => opt_unwrap_or (g_baseline g) zero) row1))
+                             (max_by_last (map (fun g => opt_unwrap_or (g_baseline g) zero) row1')). intros mx mx' Hmx.
+      eapply rel_map; [|exact Hrow1]. intros g g' Hg. apply rel_set_shim; [exact Hg|]. gi_open Hg.
+      apply sc_sub; [exact Hmx|]. apply rel_opt_unwrap_or; [exact Hgb|apply sc_zero].
+  Qed.
+
+  Lemma rel_m_baseline_rows fuel inner inner' l l' :
+    sz_rel O inner inner' -> Forall2 (gitem_rel k) l l' -> ProgRel k (Forall2 (gitem_rel k)) (m_baseline_rows fuel inner l) (m_baseline_rows fuel inner' l').
+  Proof.
+    intros Hin. revert l l'. induction fuel as [|f IH]; intros l l' Hl.
+    - cbn [m_baseline_rows]. constructor. exact Hl.
+    - destruct Hl as [|g g' r r' Hg Hr].
+      + cbn [m_baseline_rows]. constructor. constructor.
+      + change (m_baseline_rows (S f) inner (g :: r)) with
+          (let '(row, rest) := take_row (PlacementBase.l_start (get_ax (g_line g) Block)) (g :: r) in
+           pbind (m_baseline_row inner row) (fun row' => pbind (m_baseline_rows f inner rest) (fun rest' => PRet (row' ++ rest')))).
+        change (m_baseline_rows (S f) inner' (g' :: r')) with
+          (let '(row, rest) := take_row (PlacementBase.l_start (get_ax (g_line g') Block)) (g' :: r') in
+           pbind (m_baseline_row inner' row) (fun row' => pbind (m_baseline_rows f inner' rest) (fun rest' => PRet (row' ++ rest')))).
+        assert (Hgr : Forall2 (gitem_rel k) (g :: r) (g' :: r')) by (constructor; assumption).
+        gi_open Hg. rewrite Egl.
+        pose proof (rel_take_row (PlacementBase.l_start (get_ax (g_line g) Block)) _ _ Hgr) as Htr.
+        destruct (take_row _ (g :: r)) as [row rest], (take_row _ (g' :: r')) as [row' rest']. destruct Htr as [Hrow Hrest]. cbn [fst snd] in Hrow, Hrest.
+        eapply pbind_rel; [apply rel_m_baseline_row; eassumption|]. intros row1 row1' Hrow1.
+        eapply pbind_rel; [apply IH; exact Hrest|]. intros rest1 rest1' Hrest1. constructor. apply rel_app; assumption.
+  Qed.
+
+  Lemma rel_m_resolve_item_baselines inner inner' items items' :
+    sz_rel O inner inner' -> Forall2 (gitem_rel k) items items' ->
+    ProgRel k (Forall2 (gitem_rel k)) (m_resolve_item_baselines inner items) (m_resolve_item_baselines inner' items').
+  Proof.
+    intros Hin Hit. unfold m_resolve_item_baselines.
+    assert (Hs : Forall2 (gitem_rel k)
+                   (sort_by (fun a b : @GItem XQ => Z.ltb (PlacementBase.l_start (get_ax (g_line a) Block)) (PlacementBase.l_start (get_ax (g_line b) Block))) items)
+                   (sort_by (fun a b : @GItem XQ => Z.ltb (PlacementBase.l_start (get_ax (g_line a) Block)) (PlacementBase.l_start (get_ax (g_line b) Block))) items')).
+    { apply rel_sort_by_items; [|exact Hit]. intros a a' b b' Ha Hb. gi_open Ha. gi_open Hb. rewrite Egl, Egl0. reflexivity. }
+    rewrite (rel_length _ _ _ Hs). apply rel_m_baseline_rows; assumption.
+  Qed.
 End Items.
